@@ -108,8 +108,8 @@ func (prop) Describe() core.Description {
 		},
 		RealComponents: []string{"go-geom root package: Clone of all cloneable types (derived.gen.go), FlatCoords/Ends/Endss, Push, Reverse, TransformInPlace, SetCoords, SetSRID, Swap, Coord.Set, Bounds.Set/SetCoords/Extend", "Go race detector"},
 		StubComponents: []string{"the two owners (seeded mutation programs and their interleaving)"},
-		FaultKinds:     []string{"mut:ord", "mut:end", "mut:sameend", "mut:push", "mut:reverse", "mut:transform", "mut:setcoords", "mut:setsrid", "mut:swap", "mut:cidx", "mut:cset", "mut:bset", "mut:bsetcoords", "mut:bextend"},
-		Probes:         []string{"probe:multipolygon-endss-write", "probe:empty-object", "probe:both-owners-mutated-in-place", "probe:clone-storm", "probe:owner1-first", "probe:alternating", "probe:reserved-capacity", "probe:variant-0", "probe:variant-1", "probe:variant-2", "probe:variant-3", "probe:bounds-dims!=layout-stride-or-promoted", "probe:cloned-after-a-history", "probe:nothing-observed-until-the-end", "probe:write-through-slice-from-before-clone", "probe:negative-srid", "probe:one-part-object-pushed-by-both-owners"},
+		FaultKinds:     []string{"mut:ord", "mut:end", "mut:sameend", "mut:push", "mut:reverse", "mut:transform", "mut:setcoords", "mut:setfrom", "mut:setsrid", "mut:swap", "mut:cidx", "mut:cset", "mut:bset", "mut:bsetcoords", "mut:bextend"},
+		Probes:         []string{"probe:multipolygon-endss-write", "probe:empty-object", "probe:both-owners-mutated-in-place", "probe:clone-storm", "probe:setcoords-from-views-of-the-other-owner", "probe:owner1-first", "probe:alternating", "probe:reserved-capacity", "probe:variant-0", "probe:variant-1", "probe:variant-2", "probe:variant-3", "probe:bounds-dims!=layout-stride-or-promoted", "probe:cloned-after-a-history", "probe:nothing-observed-until-the-end", "probe:write-through-slice-from-before-clone", "probe:negative-srid", "probe:one-part-object-pushed-by-both-owners"},
 	}
 }
 
@@ -208,6 +208,69 @@ func (prop) Decode(raw []byte) (any, error) {
 		}
 	}
 	return &s, nil
+}
+
+// setCoordsFromViews calls dst.SetCoords with coordinates that are views of
+// src's own array (what Coord(i), Point(i).FlatCoords() and the like hand out):
+// slices of src.FlatCoords() whose capacity runs on to the end of that array.
+func setCoordsFromViews(dst, src geom.T) error {
+	flat := src.FlatCoords()
+	st := src.Stride()
+	view := func(from, to int) []geom.Coord {
+		out := []geom.Coord{}
+		for i := from; i+st <= to; i += st {
+			out = append(out, geom.Coord(flat[i:i+st]))
+		}
+		return out
+	}
+	views2 := func(from int, ends []int) ([][]geom.Coord, int) {
+		out := [][]geom.Coord{}
+		for _, e := range ends {
+			out = append(out, view(from, e))
+			from = e
+		}
+		return out, from
+	}
+	var err error
+	switch d := dst.(type) {
+	case *geom.Point:
+		if len(flat) == 0 {
+			return nil
+		}
+		_, err = d.SetCoords(geom.Coord(flat))
+	case *geom.LineString:
+		_, err = d.SetCoords(view(0, len(flat)))
+	case *geom.LinearRing:
+		_, err = d.SetCoords(view(0, len(flat)))
+	case *geom.MultiPoint:
+		cs := []geom.Coord{}
+		from := 0
+		for _, e := range src.Ends() {
+			if e == from {
+				cs = append(cs, nil)
+			} else {
+				cs = append(cs, geom.Coord(flat[from:e]))
+			}
+			from = e
+		}
+		_, err = d.SetCoords(cs)
+	case *geom.Polygon:
+		css, _ := views2(0, src.Ends())
+		_, err = d.SetCoords(css)
+	case *geom.MultiLineString:
+		css, _ := views2(0, src.Ends())
+		_, err = d.SetCoords(css)
+	case *geom.MultiPolygon:
+		csss := [][][]geom.Coord{}
+		from := 0
+		for _, ends := range src.Endss() {
+			var css [][]geom.Coord
+			css, from = views2(from, ends)
+			csss = append(csss, css)
+		}
+		_, err = d.SetCoords(csss)
+	}
+	return err
 }
 
 var partOf = map[string]string{mgeom.Pg: mgeom.LR, mgeom.MPt: mgeom.Pt, mgeom.MLS: mgeom.LS, mgeom.MPg: mgeom.Pg}
@@ -310,6 +373,12 @@ func (prop) Generate(r *prng.Rand, phase string) any {
 	}
 	if isGeomKind(s.Kind) && s.G.L == 0 {
 		kinds = []string{"setsrid", "reverse", "transform", "ord", "sameend"}
+	} else if isGeomKind(s.Kind) && phase != "race" {
+		// SetCoords given coordinates borrowed from the other owner (views of
+		// its array): afterwards the two are as independent as before. Only in
+		// the phase where one owner acts at a time - the step reads the other
+		// owner's object.
+		kinds = append(kinds, "setfrom")
 	}
 	for w := 0; w < 2; w++ {
 		n := r.Range(0, []int{1, 3, 6, 12}[r.Intn(4)])
@@ -514,6 +583,41 @@ func (a *raw) diff(b *raw) string {
 		}
 	}
 	return ""
+}
+
+// wellFormed: the end offsets partition the ordinates into whole coordinates,
+// in order and to the end.
+func (a *raw) wellFormed() bool {
+	st := mgeom.Stride(a.L)
+	if st == 0 || len(a.Flat)%st != 0 {
+		return false
+	}
+	last := 0
+	check := func(ends []int) bool {
+		for _, e := range ends {
+			if e < last || e > len(a.Flat) || e%st != 0 {
+				return false
+			}
+			if a.T == mgeom.MPt && e-last != 0 && e-last != st {
+				return false // a point is one coordinate or none
+			}
+			last = e
+		}
+		return true
+	}
+	switch {
+	case len(a.Endss) > 0:
+		for _, row := range a.Endss {
+			if !check(row) {
+				return false
+			}
+		}
+		return last == len(a.Flat)
+	case len(a.Ends) > 0:
+		return check(a.Ends) && last == len(a.Flat)
+	}
+	// no end offsets: a point or line, or a multi-part geometry without parts
+	return a.T == mgeom.Pt || a.T == mgeom.LS || a.T == mgeom.LR || len(a.Flat) == 0
 }
 
 func (a *raw) clone() *raw {
@@ -1014,6 +1118,43 @@ func (prop) Execute(scAny any, phase string, log *core.Log) core.Result {
 	step := func(w int) bool {
 		mut := s.Prog[w][pc[w]]
 		pc[w]++
+		if mut.K == "setfrom" {
+			o := 1 - w
+			if models[w].T != models[o].T || models[w].L != models[o].L || models[w].L == 0 || !models[o].wellFormed() || (models[o].T == mgeom.Pt && len(models[o].Flat) == 0) {
+				// (an owner whose end offsets were overwritten with arbitrary
+				// values has no coordinates to lend)
+				return true
+			}
+			var serr error
+			if p := core.Guard(func() { serr = setCoordsFromViews(owners[w].g, owners[o].g) }); p != "" {
+				res.Fail("panic", "panic:setfrom:"+core.PanicSite(p), "owner %d: SetCoords with coordinates that are views of owner %d's object panicked: %s", w, o, p)
+				return false
+			}
+			if serr != nil {
+				res.Fail("own-mutation-wrong", "own-mutation-wrong:"+s.Kind+":setfrom", "owner %d: SetCoords with the other owner's coordinates failed: %v", w, serr)
+				return false
+			}
+			models[w].Flat = append([]float64(nil), models[o].Flat...)
+			models[w].Ends = append([]int(nil), models[o].Ends...)
+			models[w].Endss = nil
+			for _, row := range models[o].Endss {
+				models[w].Endss = append(models[w].Endss, append([]int(nil), row...))
+			}
+			res.Steps++
+			res.Count("mut:setfrom", 1)
+			res.Count("probe:setcoords-from-views-of-the-other-owner", 1)
+			log.Addf("owner %d setfrom owner %d", w, o)
+			if s.Quiet {
+				return true
+			}
+			for k := 0; k < 2; k++ {
+				if d := observeRaw(owners[k].g).diff(models[k]); d != "" {
+					res.Fail("mutation-visible-through-other", "mutation-visible-through-other:"+s.Kind+":setfrom", "after owner %d took over owner %d's coordinates with SetCoords, owner %d's object differs from its private model: %s", w, o, k, d)
+					return false
+				}
+			}
+			return true
+		}
 		if !models[w].apply(mut, &xs[w]) {
 			return true
 		}
